@@ -77,6 +77,9 @@ class Guarded:
 
 VERS = ["v0", "v", "v00", "v01", "v4294967295", "v4294967296", "v99999999999999999999", "vv1", "1", "v-1", "V1", "v30000000", "v1.0", "v 1", "", "v٣"]
 STR = ["", " ", "a" * 5000, "a\"b", "\u0000", "../x", "/abs", "a//b", ".", "..", "a/./b", "é🙂"]
+# strings that exercise the URI parser behind the id (W005) and user address (W009) checks
+URIS = ["0ailto:me@example.org", "1:", ":", ":x", "a b:c", "%zz:", "http://[::1", "//", "?#", "http://a b/", "urn:", "a:b:c", "http://[v1.x]/", "\u00e9:x",
+        "mailto:", "x://%", "http://h:99999999999/", "-:x", "+a:x", "a+.-:x", "http://@/", "//[", "a:/\\", "#", "?", "http://a/%"]
 
 
 def weird(rng):
@@ -90,7 +93,7 @@ def mutate_inventory(inv, rng):
                     "delkey", "unknown", "nest", "dupkey", "raw", "trunc", "empty", "big", "notjson", "manyver"])
     vs = list(inv["versions"])
     if k == "id":
-        inv["id"] = weird(rng)
+        inv["id"] = rng.choice(URIS) if rng.random() < 0.5 else weird(rng)
     elif k == "type":
         inv["type"] = rng.choice(["https://ocfl.io/2.0/spec/#inventory", "x", None, 3])
     elif k == "alg":
@@ -133,7 +136,8 @@ def mutate_inventory(inv, rng):
     elif k == "created":
         inv["versions"][rng.choice(vs)]["created"] = rng.choice(["yesterday", "2020-01-01", "2020-01-01T00:00:00", 5, None, "9999-99-99T99:99:99Z"])
     elif k == "user":
-        inv["versions"][rng.choice(vs)]["user"] = rng.choice([weird(rng), {"name": weird(rng)}, {"address": "x"}, {"name": "n", "address": weird(rng)}])
+        inv["versions"][rng.choice(vs)]["user"] = rng.choice([weird(rng), {"name": weird(rng)}, {"address": "x"}, {"name": "n", "address": weird(rng)},
+                                                              {"name": "n", "address": rng.choice(URIS)}, {"name": "n", "address": rng.choice(URIS)}])
     elif k == "message":
         inv["versions"][rng.choice(vs)]["message"] = weird(rng)
     elif k == "fixity":
